@@ -473,6 +473,24 @@ def cache_excl(ctx: Ctx) -> RuleResult:
                               "roots) differs from the listed nodes: mid's result is written to the file and mid is not executed on restart",
                               norm_src(n))
                     return r
+    # ... and what the writer reads from the field are ids: the field was re-assigned from the alias resolver (a tag, or a node given by
+    # reference, is not the id of any result: nothing would be left out of the file)
+    reads_field = any(isinstance(x, ast.Attribute) and x.attr == "cache_deps_of" and dotted(x.value) == "self"
+                      for d in defs if d.value is not None for x in ast.walk(d.value))
+    if reads_field:
+        n_res = 0
+        for g_ in ctx.funcs():
+            if g_.cls is None or not (g_.cls.qualname == (f.cls.qualname if f.cls else None) or (f.cls and ctx.P.is_subclass(f.cls.qualname, g_.cls.qualname))
+                                      or (f.cls and ctx.P.is_subclass(g_.cls.qualname, f.cls.qualname))):
+                continue
+            n_res += sum(1 for n in iter_own_nodes(g_.node) if isinstance(n, ast.Assign) and norm_src(n.targets[0]) == "self.cache_deps_of"
+                         and isinstance(n.value, ast.Call) and (ctx.T.resolve_callee(g_, n.value) or "") in ctx.P.funcs)
+        r.ob(n_res >= 1, {"the field the writer reads holds resolved ids": n_res >= 1})
+        if n_res == 0:
+            r.violate(f"{f.short}: the ids left out of the cache file are taken from the user's raw cache_deps_of aliases", f.loc(defs[0]),
+                      "cache_deps_of=['<tag>'] (or any alias that is not literally an id) leaves nothing out: the node's own result is "
+                      "written to the file and the restart does not execute the node it was asked to re-run", norm_src(defs[0])[:120])
+            return r
     # nothing but the cache_deps_of ids is excluded: every other result of the run belongs in the file
     contrib = [(d, d.value) for d in defs if d.value is not None]
     for n in iter_own_nodes(f.node):
